@@ -151,7 +151,7 @@ Section Proofs.
 
   Lemma Inv_apply : forall s o, Inv s -> Inv (apply' s o).
   Proof.
-    intros s o HI. destruct o as [u r ttl rttl now|u r ttl now|t n1 n2|t n1 n2|t|sec]; cbn [apply].
+    intros s o HI. destruct o as [u r ttl rttl now|u r ttl now|t ttl n1 n2|t n1 n2|t|sec]; cbn [apply].
     - (* create_session *)
       unfold create_session. destruct (mk_access' (secret s) u r now (now + ttl) (ctr s)) as [a m] eqn:E.
       set (rt := TOpaque (nonce (ctr s + 1))). set (rc := mkRec a (Some rt) u r (now + ttl) (now + rttl)).
@@ -173,8 +173,8 @@ Section Proofs.
       unfold refresh. destruct (find (store s) t) as [r|] eqn:Ft; [|exact HI].
       destruct (r_rexp r <? n1).
       + cbn. apply Inv_shrink; [exact HI|]. intros k r' H. apply find_remove_opt in H. apply find_remove in H. exact H.
-      + destruct (mk_access' (secret s) (r_user r) (r_role r) n2 (r_exp r) (ctr s)) as [a m] eqn:E.
-        set (rt := TOpaque (nonce (ctr s + 1))). set (nr := mkRec a (Some rt) (r_user r) (r_role r) (r_exp r) (r_rexp r)).
+      + destruct (mk_access' (secret s) (r_user r) (r_role r) n2 (n2 + ttl) (ctr s)) as [a m] eqn:E.
+        set (rt := TOpaque (nonce (ctr s + 1))). set (nr := mkRec a (Some rt) (r_user r) (r_role r) (n2 + ttl) (r_rexp r)).
         destruct (find (store s) a) eqn:Fa; [cbn; apply Inv_shrink; auto|].
         destruct (find ((a, nr) :: store s) rt) eqn:Fr; [cbn; apply Inv_shrink; auto|].
         cbn [fst]. eapply (Inv_add s a (Some rt) nr); try reflexivity; [exact HI|eapply mk_access_wf; exact E|].
@@ -262,20 +262,20 @@ Section Proofs.
   Qed.
 
   (* ---- refresh ---- *)
-  Lemma refresh_ok_shape : forall s t n1 n2 s' a rt,
-    refresh' s t n1 n2 = (s', ROk (a, rt)) ->
+  Lemma refresh_ok_shape : forall s t ttl n1 n2 s' a rt,
+    refresh' s t ttl n1 n2 = (s', ROk (a, rt)) ->
     exists r m, find (store s) t = Some r /\ n1 <= r_rexp r /\
-      mk_access' (secret s) (r_user r) (r_role r) n2 (r_exp r) (ctr s) = (a, m) /\
+      mk_access' (secret s) (r_user r) (r_role r) n2 (n2 + ttl) (ctr s) = (a, m) /\
       rt = TOpaque (nonce (ctr s + 1)) /\
       secret s' = secret s /\
-      log s' = log s ++ [mkIssue a (Some rt) (r_user r) (r_role r) (r_exp r) (secret s) m] /\
-      store s' = remove_opt (remove ((rt, mkRec a (Some rt) (r_user r) (r_role r) (r_exp r) (r_rexp r)) ::
-                                      (a, mkRec a (Some rt) (r_user r) (r_role r) (r_exp r) (r_rexp r)) :: store s) (r_tok r)) (r_ref r).
+      log s' = log s ++ [mkIssue a (Some rt) (r_user r) (r_role r) (n2 + ttl) (secret s) m] /\
+      store s' = remove_opt (remove ((rt, mkRec a (Some rt) (r_user r) (r_role r) (n2 + ttl) (r_rexp r)) ::
+                                      (a, mkRec a (Some rt) (r_user r) (r_role r) (n2 + ttl) (r_rexp r)) :: store s) (r_tok r)) (r_ref r).
   Proof.
-    intros s t n1 n2 s' a rt H. unfold refresh in H.
+    intros s t ttl n1 n2 s' a rt H. unfold refresh in H.
     destruct (find (store s) t) as [r|] eqn:Ft; [|inversion H].
     destruct (r_rexp r <? n1) eqn:El; [inversion H|].
-    destruct (mk_access' (secret s) (r_user r) (r_role r) n2 (r_exp r) (ctr s)) as [a0 m] eqn:E.
+    destruct (mk_access' (secret s) (r_user r) (r_role r) n2 (n2 + ttl) (ctr s)) as [a0 m] eqn:E.
     destruct (find (store s) a0); [inversion H|].
     destruct (find _ (TOpaque (nonce (ctr s + 1)))); [inversion H|].
     inversion H; subst. exists r, m. apply N.ltb_ge in El.
@@ -283,34 +283,37 @@ Section Proofs.
   Qed.
 
   (* the old refresh token (more precisely: the presented token, and both keys of its session) is gone *)
-  Lemma refresh_rotates : forall s t n1 n2 s' a rt,
-    Inv s -> refresh' s t n1 n2 = (s', ROk (a, rt)) ->
+  Lemma refresh_rotates : forall s t ttl n1 n2 s' a rt,
+    Inv s -> refresh' s t ttl n1 n2 = (s', ROk (a, rt)) ->
     token_eqb t a = false -> token_eqb t rt = false ->
-    find (store s') t = None /\ (forall m1 m2, fst (refresh' s' t m1 m2) = s' /\ snd (refresh' s' t m1 m2) = RErr EInvalid).
+    find (store s') t = None /\
+    (forall ttl' m1 m2, fst (refresh' s' t ttl' m1 m2) = s' /\ snd (refresh' s' t ttl' m1 m2) = RErr EInvalid).
   Proof.
-    intros s t n1 n2 s' a rt (HA & HB & HC) H Ha Hrt.
-    destruct (refresh_ok_shape _ _ _ _ _ _ _ H) as (r & m & Ft & _ & _ & Hrt' & _ & _ & Hst).
+    intros s t ttl n1 n2 s' a rt (HA & HB & HC) H Ha Hrt.
+    destruct (refresh_ok_shape _ _ _ _ _ _ _ _ H) as (r & m & Ft & _ & _ & Hrt' & _ & _ & Hst).
     assert (Hn : find (store s') t = None).
     { rewrite Hst. destruct (HC t r Ft) as [Hk|Hk].
       - rewrite <- Hk. destruct (r_ref r); cbn [remove_opt]; [apply find_remove_none|]; apply find_remove_same.
       - rewrite Hk. cbn [remove_opt]. apply find_remove_same. }
-    split; [exact Hn|]. intros m1 m2. unfold refresh. rewrite Hn. split; reflexivity.
+    split; [exact Hn|]. intros ttl' m1 m2. unfold refresh. rewrite Hn. split; reflexivity.
   Qed.
 
-  (* the new access token is valid as long as the OLD expiry has not passed — and it never lives longer *)
-  Lemma refresh_fresh_partial : forall s t n1 n2 s' a rt,
-    refresh' s t n1 n2 = (s', ROk (a, rt)) ->
+  (* a successful refresh opens a new access window: the returned access token expires at
+     now2 + ttl and is valid (for the session's user and role) at every instant up to then,
+     in particular at the instant it is issued — whatever the old ExpiresAt was *)
+  Lemma refresh_fresh : forall s t ttl n1 n2 s' a rt,
+    refresh' s t ttl n1 n2 = (s', ROk (a, rt)) ->
     exists r, find (store s) t = Some r /\
-      (exists i, log s' = log s ++ [i] /\ i_access i = a /\ i_exp i = r_exp r) /\
+      (exists i, log s' = log s ++ [i] /\ i_access i = a /\ i_exp i = n2 + ttl) /\
       (token_eqb a (r_tok r) = false ->
        match r_ref r with Some x => token_eqb a x = false | None => True end ->
-       forall m1 m2, m2 <= r_exp r -> validate' s' a m1 m2 = (s', ROk (r_user r, r_role r))).
+       forall m1 m2, m2 <= n2 + ttl -> validate' s' a m1 m2 = (s', ROk (r_user r, r_role r))).
   Proof.
-    intros s t n1 n2 s' a rt H.
-    destruct (refresh_ok_shape _ _ _ _ _ _ _ H) as (r & m & Ft & _ & Hmk & Hrt & Hsec & Hlog & Hst).
+    intros s t ttl n1 n2 s' a rt H.
+    destruct (refresh_ok_shape _ _ _ _ _ _ _ _ H) as (r & m & Ft & _ & Hmk & Hrt & Hsec & Hlog & Hst).
     exists r. split; [exact Ft|]. split; [eexists; split; [exact Hlog|split; reflexivity]|].
     intros Hf1 Hf2 m1 m2 Hm.
-    set (nr := mkRec a (Some rt) (r_user r) (r_role r) (r_exp r) (r_rexp r)) in *.
+    set (nr := mkRec a (Some rt) (r_user r) (r_role r) (n2 + ttl) (r_rexp r)) in *.
     assert (Hfind : find (store s') a = Some nr).
     { rewrite Hst. assert (Hx : find (remove ((rt, nr) :: (a, nr) :: store s) (r_tok r)) a = Some nr).
       { rewrite find_remove_other by exact Hf1. cbn. subst rt. destruct a as [h p sg|b].
@@ -321,6 +324,18 @@ Section Proofs.
     destruct (parse' (secret s) a m1) as [c|e] eqn:P.
     - unfold mk_access in Hmk. inversion Hmk as [[Ha Hm']]. clear Hmk.
       pose proof (parse_sign (secret s) _ a m1 c (eq_sym Ha) P) as Hc. subst c. reflexivity.
-    - rewrite Hfind. cbn [r_exp nr]. replace (r_exp r <? m2) with false by (symmetry; apply N.ltb_ge; exact Hm). reflexivity.
+    - rewrite Hfind. cbn [r_exp nr]. replace (n2 + ttl <? m2) with false by (symmetry; apply N.ltb_ge; exact Hm). reflexivity.
+  Qed.
+
+  (* "valid when issued": at the instant of the refresh itself *)
+  Lemma refresh_valid_when_issued : forall s t ttl n1 n2 s' a rt,
+    refresh' s t ttl n1 n2 = (s', ROk (a, rt)) ->
+    exists r, find (store s) t = Some r /\
+      (token_eqb a (r_tok r) = false ->
+       match r_ref r with Some x => token_eqb a x = false | None => True end ->
+       validate' s' a n2 n2 = (s', ROk (r_user r, r_role r))).
+  Proof.
+    intros s t ttl n1 n2 s' a rt H. destruct (refresh_fresh _ _ _ _ _ _ _ _ H) as (r & Ft & _ & Hv).
+    exists r. split; [exact Ft|]. intros H1 H2. apply Hv; [exact H1|exact H2|]. apply N.le_add_r.
   Qed.
 End Proofs.
